@@ -15,7 +15,7 @@ XForcing(fv) == IF fv.ibm /\ fv.xforce THEN <<"temp">> ELSE <<>>
 PVarsOf(fv) == IF ~fv.pvars THEN <<>> ELSE IF fv.extracol THEN <<"farmid", "release_time">> ELSE <<"release_time">>
 Names(fv) == <<"mult", "release_time", "X", "Y", "Z">> \o (IF fv.extracol THEN <<"farmid">> ELSE <<>>)
 StatePVars(fv) == IF fv.extracol THEN <<"farmid", "release_time">> ELSE <<"release_time">>
-ForcingName(fv, First) == IF fv.wildcard THEN "f_*.nc" ELSE First
+ForcingName(fv, First) == IF fv.wildcard THEN fv.wildname ELSE First        \* wildname: "f_*.nc", "f_??.nc", "f_[0-9][0-9].nc"
 GridOnly == "grid_only.nc"                       \* an explicitly named grid file is a file of its own (with another grid spacing)
 
 Canon(fv, First) == [ gridfile |-> IF fv.gridsec = "explicit" THEN GridOnly ELSE First,     \* explicit, or the (first) forcing file
